@@ -144,6 +144,7 @@ pub fn profile_for(prop: &str, thorough: bool) -> Profile {
         }
         "C03" => {
             p.w.burst = 1;
+            p.w.fresh_lookup = 2;
             p.cap = CapMode::Mixed;
             p.w.insert_batch = 3;
             p.w.warm_insert = 6;
@@ -153,6 +154,7 @@ pub fn profile_for(prop: &str, thorough: bool) -> Profile {
         }
         "C04" => {
             p.w.burst = 2;
+            p.w.fresh_lookup = 2;
             p.cap = CapMode::Bounded;
             p.w.warm_insert = 10;
             p.w.insert = 40;
@@ -208,12 +210,16 @@ pub fn profile_for(prop: &str, thorough: bool) -> Profile {
         }
         "C10" => {
             p.w.burst = 1;
+            p.w.fresh_lookup = 3;
             p.burst_sizes = vec![70, 200];
             p.w.invalidate = 10;
             p.w.invalidate_if = 6;
             p.w.enter_beyond = 7;
         }
         "C11" => {
+            p.w.burst = 1;
+            p.w.fresh_lookup = 3;
+            p.burst_sizes = vec![70, 130];
             p.w.handle = 8;
             p.sync_every_op_some = true;
             p.drop_unsynced = true;
